@@ -943,9 +943,9 @@ def decodeFrame (s : SerProfile) (t : SerThread) (i : Nat) : Option FrameDesc :=
     | none => some none
     | some r => do
       let l ← (t.rtLib[r]?).bind (s.libs[·]?)
-      -- the resource's name is the library's name
+      -- the resource's name is the library's display name (`LibraryInfo::name`); `l` is its identity
       let rn ← (t.rtName[r]?).bind (t.strings[·]?)
-      if rn = l then pure (some l) else none)
+      if rn = libDisplayName l then pure (some l) else none)
   let c ← (t.ftCat[i]?).bind (s.cats[·]?)
   let sub ← (t.ftSub[i]?).bind (c.2.2[·]?)
   let nsym ← (match ← t.ftNsym[i]? with
